@@ -294,6 +294,55 @@ fn run_driver<G: GraphLike, D: Driver>(
                 obs.class("terms>=2");
             }
             obs.class_if(split, "split-on");
+            // other routes to completion through the public interface (first option pair only)
+            if si == 0 && split == cfg.split {
+                // (a) partially, to a generated depth, then to the end
+                let depth = (cfg.words.first().copied().unwrap_or(1) % 4) as i64;
+                let mut d2 = Decomposer::new(g);
+                d2.with_simp(simp).with_split_graphs_components(split);
+                let s2 = guarded(&format!("{what}: decompose_until_depth({depth}) then decompose"), || {
+                    d2.decompose_until_depth(depth, &driver);
+                    d2.decompose(&driver);
+                    d2.scalar()
+                })?;
+                let got2 = zw_scalar(&s2).map_err(|e| format!("{what}: {e}"))?;
+                if got2 != *want {
+                    return Err(format!(
+                        "{what}: decompose_until_depth({depth}) followed by decompose returned {got2:?}, the diagram denotes {want:?}"
+                    ));
+                }
+                obs.class("until-depth-then-complete");
+                // (b) a decomposer that has already finished another target, re-targeted
+                let mut d3 = Decomposer::new(g);
+                match simp {
+                    SimpFunc::FullSimp => {
+                        d3.with_full_simp();
+                    }
+                    SimpFunc::CliffordSimp => {
+                        d3.with_clifford_simp();
+                    }
+                    _ => {
+                        d3.with_simp(simp);
+                    }
+                }
+                d3.with_split_graphs_components(split);
+                let s3 = guarded(&format!("{what}: decompose, set_target, decompose"), || {
+                    d3.decompose(&driver);
+                    let first = d3.scalar();
+                    d3.set_target(g.clone());
+                    d3.decompose(&driver);
+                    (first, d3.scalar())
+                })?;
+                for (k, s) in [(1, s3.0), (2, s3.1)] {
+                    let got3 = zw_scalar(&s).map_err(|e| format!("{what}: {e}"))?;
+                    if got3 != *want {
+                        return Err(format!(
+                            "{what}: run {k} of a re-targeted decomposer (set_target) returned {got3:?}, the diagram denotes {want:?}"
+                        ));
+                    }
+                }
+                obs.class("re-targeted");
+            }
             // parallel == sequential
             if cfg.threads > 0 {
                 let k = 1 + (cfg.threads as usize - 1) % 16;
@@ -345,6 +394,21 @@ fn check_closed<G: GraphLike>(
     run_driver(g, BssTOnlyDriver { random_t: true }, &n("BssTOnly(random)"), cfg, &want, nosimp_ok, obs)?;
     run_driver(g, BssWithCatsDriver { random_t: false }, &n("BssWithCats(first)"), cfg, &want, nosimp_ok, obs)?;
     run_driver(g, BssWithCatsDriver { random_t: true }, &n("BssWithCats(random)"), cfg, &want, nosimp_ok, obs)?;
+    {
+        // decompose_standard = BssWithCats(first) without a driver argument
+        let simp = if nosimp_ok { simp_of(cfg.simp) } else { SimpFunc::FullSimp };
+        let mut d = Decomposer::new(g);
+        d.with_simp(simp).with_split_graphs_components(cfg.split);
+        let what = n(&format!("decompose_standard simp={simp:?} split={}", cfg.split));
+        let s = guarded(&what, || {
+            d.decompose_standard();
+            d.scalar()
+        })?;
+        let got = zw_scalar(&s).map_err(|e| format!("{what}: {e}"))?;
+        if got != want {
+            return Err(format!("{what}: returned {got:?}, the diagram denotes {want:?}"));
+        }
+    }
     run_driver(g, DynamicTDriver, &n("DynamicT"), cfg, &want, nosimp_ok, obs)?;
     let tries = vec![
         1 + cfg.sherlock[0] as usize % 4,
